@@ -42,6 +42,8 @@ type In struct {
 	Drop       string            `json:",omitempty"` // "" | "debian-binary" | "control" | "data"
 	Dup        string            `json:",omitempty"` // "" | "control-end" | "control-adjacent" | "data-end" | "data-adjacent" | "both-end"
 	ExtraCount int               `json:",omitempty"` // this many further members _x001, _x002, ... at the end
+	RawExtra   []gen.ArMember    `json:",omitempty"` // further members given verbatim (names such as "/" and "//") ...
+	RawPos     int               `json:",omitempty"` // ... inserted at this position
 	SecondName string            `json:",omitempty"` // a further member with this name (see secondMember) ...
 	SecondPos  int               `json:",omitempty"` // ... inserted at this position of the member list
 	WantStruct map[string]string `json:",omitempty"` // field-model inputs: canonical rendering of every deb.Control field (replaces Exp)
@@ -77,6 +79,9 @@ func features(in In) []string {
 	}
 	if in.SecondName != "" && !strings.HasPrefix(in.SecondName, "control.tar") && !strings.HasPrefix(in.SecondName, "data.tar") {
 		f = append(f, "second-member-name-not-tar")
+	}
+	if len(in.RawExtra) > 0 {
+		f = append(f, "extra-member-with-slash-name")
 	}
 	if in.Model.BinaryContent() != "2.0\n" {
 		f = append(f, "debian-binary-not-2.0")
@@ -284,6 +289,13 @@ func assemble(c *gen.DebCompressor, in *In) ([]gen.ArMember, error) {
 	}
 	for i := 1; i <= in.ExtraCount; i++ {
 		out = append(out, gen.ArMember{Name: fmt.Sprintf("_x%03d", i), Data: []byte(fmt.Sprintf("member %d\n", i))})
+	}
+	if len(in.RawExtra) > 0 {
+		pos := in.RawPos
+		if pos > len(out) {
+			pos = len(out)
+		}
+		out = append(out[:pos:pos], append(append([]gen.ArMember{}, in.RawExtra...), out[pos:]...)...)
 	}
 	if in.SecondName != "" {
 		sm, err := secondMember(c, in)
@@ -585,6 +597,9 @@ func outcomeClass(in In, o Obs) string {
 func Replay(scenario string, raw json.RawMessage) []*mc.Violation {
 	if scenario == "interleaved-debs" {
 		return replayMulti(scenario, raw)
+	}
+	if scenario == "loadfile-path-kinds" {
+		return replayPath(scenario, raw)
 	}
 	if scenario == "object-histories" {
 		return replayHist(scenario, raw)
